@@ -267,6 +267,11 @@ def c07(tier, sc):
             {"kind": "xss.conf", "in": m["in"], "ctx": m["ctx"], "spec": m["spec"], "impl": m["impl"]})
     rep.cov["traces_validated_against_impl"] += len(beh)
     rep.part("replayB", behaviours=len(beh), mismatches=len(mism))
+    states = {}
+    for b in beh:
+        for st in b.get("path", []):
+            states[st] = states.get(st, 0) + 1
+    rep.part("transition_coverage", state_functions_taken=states, never_taken=sorted(set(ALL_H5_STATES) - set(states)))
     # IsXSS(s) = OR over the five contexts of the specification's verdicts
     byin = {}
     for b in beh:
@@ -878,6 +883,17 @@ SQLI_INVS = ["TypeOK", "LexInv", "WindowInRange", "FoldTerminates", "NoWhitelist
              "ResultConsistent", "CascadeOrder", "Export"]
 
 ALLFLAGS = [9, 17, 10, 18, 12, 20]
+ALL_FOLD_RULES = ["SkipLeading", "SkipLeading.empty", "Finish", "short2", "short3", "none",
+                  "F2_StrStr", "F2_SemiSemi", "F2_OpUnary", "F2_ParenUnary", "F2_Merge", "F2_SemiIf", "F2_WordParenFunc", "F2_InNotIn",
+                  "F2_Like", "F2_SqlType", "F2_Collate", "F2_Backslash", "F2_LParenLParen", "F2_RParenRParen", "F2_BraceWord",
+                  "F2_BraceWord.evil", "F2_RBrace",
+                  "F3_NumOpNum", "F3_OpXOp", "F3_LogicXLogic", "F3_VarOpX", "F3_WordOpX", "F3_CastType", "F3_CommaList", "F3_ExprUnaryParen",
+                  "F3_KwUnaryX", "F3_CommaUnaryX", "F3_CommaUnaryFunc", "F3_WordDotWord", "F3_ExprDotWord", "F3_FuncParenNotClose"]
+ALL_LEXERS = ["virtualquote", "op2", "string", "hash", "money", "op1", "byte", "dash", "number", "slash", "other", "var", "bstring", "estring",
+              "nqstring", "qstring", "ustring", "xstring", "bword", "backslash", "tick", "word"]
+ALL_H5_STATES = ["Data", "TagOpen", "EndTagOpen", "TagName", "TagNameClose", "SelfClosingStartTag", "BeforeAttrName", "AttrName", "AfterAttrName",
+                 "BeforeAttrValue", "AttrValueNoQuote", "AttrValueSQ", "AttrValueDQ", "AttrValueBQ", "AfterAttrValueQuoted", "MarkupDeclOpen",
+                 "Comment", "BogusComment", "BogusComment2", "CData", "Doctype", "EOF"]
 TLC_PAR_JOBS = 4          # independent TLC configurations run side by side ...
 TLC_PAR_WORKERS = 5       # ... each with this many workers
 
@@ -1046,6 +1062,18 @@ def c06(tier, sc):
              "spec": m["spec"], "impl": m["impl"]})
     rep.cov["traces_validated_against_impl"] += len(beh)
     rep.part("replayB", behaviours=len(beh), mismatches=len(mism))
+    # coverage of the specification's transitions by the replayed behaviours (vacuity report)
+    rules, kinds = {}, {}
+    for b in beh:
+        for r in b.get("rules", []):
+            for part in r.split("+"):
+                if part:
+                    rules[part] = rules.get(part, 0) + 1
+        for kd in b.get("kinds", []):
+            kinds[kd] = kinds.get(kd, 0) + 1
+    rep.part("transition_coverage", fold_steps_taken=rules, lexers_taken=kinds,
+             fold_rules_never_taken=sorted(set(ALL_FOLD_RULES) - set(rules)),
+             lexers_never_taken=sorted(set(ALL_LEXERS) - set(kinds)))
     # direction A
     inputs = sqli_inputs(tier, "c06")
     ev, ntr, rejects = sqli_trace_validate(sc, d, rep, vh, inputs)
